@@ -338,6 +338,38 @@ Definition case_res (r : res) (pool : list package) : val :=
   match r with Ok q => VL [show q; bits q pool] | EParse => e_parse | EUnmodelled => e_unmodelled end.
 Definition run_case (pool : list package) (t : str) : val := case_res (parse_match t) pool.
 Definition run_case_orig (pool : list package) (t : str) : val := case_res (parse_match_orig t) pool.
+(* comparison of recorded structures: the children of an AND node (tag 33) form a multiset, so a
+   reordering of the restrictions inside an AndRestriction is not a disagreement *)
+Fixpoint remove_first (f : val -> bool) (l : list val) : option (list val) :=
+  match l with
+  | [] => None
+  | y :: l' => if f y then Some l'
+               else match remove_first f l' with Some r => Some (y :: r) | None => None end
+  end.
+
+Fixpoint struct_eqb (a b : val) {struct a} : bool :=
+  match a, b with
+  | VL xs, VL ys =>
+      match xs, ys with
+      | VZ 33%Z :: xs', VZ 33%Z :: ys' =>
+          (fix all (xs : list val) (ys : list val) {struct xs} : bool :=
+             match xs with
+             | [] => match ys with [] => true | _ => false end
+             | x :: xs'' => match remove_first (struct_eqb x) ys with
+                            | Some ys'' => all xs'' ys''
+                            | None => false
+                            end
+             end) xs' ys'
+      | _, _ =>
+          (fix go (xs ys : list val) {struct xs} : bool :=
+             match xs, ys with
+             | [], [] => true
+             | x :: xs'', y :: ys'' => struct_eqb x y && go xs'' ys''
+             | _, _ => false
+             end) xs ys
+      end
+  | _, _ => val_eqb a b
+  end.
 (* stream "glob": (pattern, value) -> convert_glob(pattern), matched on the value *)
 Definition run_glob (i : str * str) : val :=
   let '(p, s) := i in
